@@ -8,6 +8,7 @@ import (
 	"log/slog"
 	"net/http"
 	"os"
+	"path/filepath"
 	"strings"
 	"sync"
 	"time"
@@ -329,18 +330,53 @@ func (r *Router) saveStateSnapshot() error {
 		return nil
 	})
 
-	f, err := os.Create(r.statePath)
-	if err != nil {
-		return err
-	}
-
-	err = json.NewEncoder(f).Encode(services)
+	err := r.writeStateFile(services)
 	if err != nil {
 		slog.Error("Unable to save state", "error", err, "path", r.statePath)
 		return err
 	}
 
 	slog.Debug("Saved state", "path", r.statePath)
+	return nil
+}
+
+// writeStateFile replaces the state file atomically: the new snapshot is
+// written, synced and closed under a temporary name in the same directory and
+// then renamed over the previous one, so that the file on disk is always one
+// complete snapshot even if we are killed part way through.
+func (r *Router) writeStateFile(services []*Service) error {
+	f, err := os.CreateTemp(filepath.Dir(r.statePath), filepath.Base(r.statePath)+".tmp-*")
+	if err != nil {
+		return err
+	}
+	tempPath := f.Name()
+
+	err = json.NewEncoder(f).Encode(services)
+	if err != nil {
+		f.Close()
+		os.Remove(tempPath)
+		return err
+	}
+
+	err = f.Sync()
+	if err != nil {
+		f.Close()
+		os.Remove(tempPath)
+		return err
+	}
+
+	err = f.Close()
+	if err != nil {
+		os.Remove(tempPath)
+		return err
+	}
+
+	err = os.Rename(tempPath, r.statePath)
+	if err != nil {
+		os.Remove(tempPath)
+		return err
+	}
+
 	return nil
 }
 
